@@ -654,6 +654,11 @@ func (f *MemFile) Write(b []byte) (n int, err error) {
 
 	nd.mu.Lock()
 
+	if f.openMode&avfs.OpenAppend != 0 {
+		// with O_APPEND every write lands at the current end of the file.
+		f.at = int64(len(nd.data))
+	}
+
 	if gap := f.at - int64(len(nd.data)); gap > 0 {
 		// writing beyond the end of the file leaves a zero filled gap.
 		nd.data = append(nd.data, make([]byte, gap)...)
